@@ -151,6 +151,8 @@ FlatBad(i) == LET f == E(i).flat  ref == FlatRef(i) IN
                 /\ \A j \in 1..Len(ref) : \E k \in 1..Len(f.entries) :
                      Parse(f.entries[k].k) = [ok |-> TRUE, keys |-> ref[j].p] /\ f.entries[k].node = ref[j].node)
 CanonBad(i) == E(i).dom /\ ~(E(i).canon.ok /\ SameValue(E(i).v, E(i).canon.v))
+\* the flattened form is a mapping: canonicalize must not depend on the order in which its entries are stored
+CanonOrderBad(i) == E(i).dom /\ \E k \in 1..Len(E(i).canonp) : ~(E(i).canonp[k].ok /\ SameValue(E(i).v, E(i).canonp[k].v))
 CanonOutside(u) == Cardinality({i \in 1..NV(0) : ~E(i).dom /\ ~(E(i).canon.ok /\ SameValue(E(i).v, E(i).canon.v))})
 ProbeCases(u) == {c \in (1..NV(0)) \X {"plain", "sym"} \X (1..40) : c[3] <= Len(E(c[1]).probes)}
 ProbeBad(c) == LET pr == E(c[1]).probes[c[3]] IN pr[c[2]] # (IF LookupV(E(c[1]).v, pr.p).ok THEN "T" ELSE "F")
@@ -162,6 +164,7 @@ ValueLaws(u) ==
   /\ Report("visit_log", LogCases(0), LogBad, LogCls)
   /\ Report("flatten_paths", 1..NV(0), FlatBad, Plain)
   /\ Report("canonicalize_flatten", 1..NV(0), CanonBad, Plain)
+  /\ Report("canonicalize_any_entry_order", 1..NV(0), CanonOrderBad, Plain)
   /\ Report("exists", ProbeCases(0), ProbeBad, ProbeCls)
 
 ASSUME CASE Part = "parse" -> ParseLaws(0)
